@@ -236,13 +236,20 @@ def clear_inverse_atoms(ctx, p):
             continue
         e = max((ee for m in p.t for aa, ee in m if aa == a), default=0)
         if e > 0:
+            if len(at.data.t)**e > 20000:
+                return p        # too large to clear
             f = at.data**e
+            if mult is not None and len(mult.t) * len(f.t) > 20000:
+                return p
             mult = f if mult is None else mult * f
+    if mult is not None and len(p.t) * len(mult.t) > 300000:
+        return p
     return p if mult is None else p * mult
 
 
 def prove_zero(ctx, name, x, rounds=2, max_deg=8, max_inst=6000, key=None,
-               fallback_exact=True, clear_denominators=True, lemma=False):
+               fallback_exact=True, clear_denominators=True, lemma=False,
+               max_goal_terms=20000, inst_budget_s=20.0):
     """Obligation: every entry of x is zero (normal form, then LRA
     abstraction, then exact z3)."""
     polys = flatten_polys(x)
@@ -250,11 +257,12 @@ def prove_zero(ctx, name, x, rounds=2, max_deg=8, max_inst=6000, key=None,
     if not nz:
         ctx.stats.add('normal-form', 0.0)
         return ctx.record(name, 'unsat', 'normal-form', key=key)
-    if sum(len(p.t) for p in nz) > 60000:
+    if sum(len(p.t) for p in nz) > max_goal_terms:
         # too large for the linearised prover within reach: candidate only
         return ctx.record(name, 'sat', 'too-large-for-lra', key=key,
                           candidate=True, model={})
     lp = LinProver(ctx)
+    lp.inst_budget_s = inst_budget_s
     r, dt = lp.prove_zero(nz, rounds, max_deg, max_inst)
     if r == 'unsat':
         if lemma:   # proved from the hypotheses: may be used as one
@@ -264,8 +272,10 @@ def prove_zero(ctx, name, x, rounds=2, max_deg=8, max_inst=6000, key=None,
                           instances=lp.instances)
     if clear_denominators:
         cleared = [clear_inverse_atoms(ctx, p) for p in nz]
-        if any(c is not p for c, p in zip(cleared, nz)):
+        if any(c is not p for c, p in zip(cleared, nz)) and sum(
+                len(c.t) for c in cleared) <= max_goal_terms:
             lp = LinProver(ctx)
+            lp.inst_budget_s = inst_budget_s
             r2, dt = lp.prove_zero(cleared, rounds, max_deg + 6, max_inst)
             if r2 == 'unsat':
                 return ctx.record(name, 'unsat',
